@@ -155,9 +155,41 @@ def handleRun (line : String) (c a r call ini : String) (ins : List String) : St
     answer m (if Supported inv then spec else "any")
   | _, _, _, _, _ => badLine line
 
+/-! ## Name resolution (third line kind)
+
+`names <hidden> <caps> <args> <ret> <call> locals=<l,…|-> uses=<u,…>`: `hidden` = the name of the inner fn as read from the REAL
+expansion of the instance; `uses` = identifiers the body uses as values, `locals` = its `let`s.
+  M/V: what every used name (and the callee `call` of a recursive call) denotes in the generated code (`resolveG`/`resolveCallG`
+       over the munchers' expansion), S: what it denotes in the explicit recursion (`resolveE`; the callee must be the hidden fn).
+Here V ≠ S is a result, not a driver bug: it says the real hidden-fn name captures (or is captured by) a name of the program. -/
+
+def showEnt : Ent → String
+  | .loc _ => "let" | .param _ => "param" | .hiddenFn => "hidden" | .outer _ => "outer"
+
+def parseNameList (pref s : String) : Option (List Name) :=
+  if s.startsWith pref then
+    let r := (s.drop pref.length).toString
+    if r = "-" then some [] else (r.splitOn ",").mapM fun p => if p = "" then none else some p
+  else none
+
+def handleNames (line : String) (hidden c a r call ls us : String) : String :=
+  match parseCaps c, parseArgs a, parseRet r, parseNameList "locals=" ls, parseNameList "uses=" us with
+  | some caps, some args, some ret, some locals, some uses =>
+    if call ≠ "tc" ∧ call ≠ "ntc" ∨ hidden = "" then badLine line else
+    let inv : Inv := { caps := caps, args := args, ret := ret }
+    let spec := commaSep (uses.map fun u => s!"{u}>{showEnt (resolveE inv locals u)}") ++ ",call>hidden"
+    let m :=
+      match expandSteps inv with
+      | none => "stuck"
+      | some (e, _) =>
+        commaSep (uses.map fun u => s!"{u}>{showEnt (resolveG hidden e locals u)}") ++ s!",call>{showEnt (resolveCallG hidden e hidden)}"
+    answer m (if Supported inv then spec else "any")
+  | _, _, _, _, _ => badLine line
+
 def handleAny (line : String) : String :=
   match tokens line with
   | "run" :: c :: a :: r :: call :: ini :: ins => handleRun line c a r call ini ins
+  | ["names", hidden, c, a, r, call, ls, us] => handleNames line hidden c a r call ls us
   | _ => handle line
 
 def main : IO Unit := driverMain handleAny
